@@ -186,6 +186,8 @@ class DLTypeContext:
                     dimension_expression,
                     self.tensor_shape_map,
                 )
+                # remember the literal under its name so that later uses of the name are compared with it
+                self.tensor_shape_map[dimension_expression.identifier] = actual_shape[dim_idx]
                 continue
 
             if (
